@@ -514,6 +514,24 @@ func (w *World) checkMerged(out segment.Segment, outCanon *Canon, ins []*SegH, d
 		}
 		for _, f := range ka {
 			ev, ov := e.Vec[f], o.Vec[f]
+			// the vector count statistic: when no input loses a document, the merged
+			// field must count exactly the inputs' vectors
+			anyDrop := false
+			var sum uint64
+			for i, h := range ins {
+				if drops[i] != nil && !drops[i].IsEmpty() {
+					anyDrop = true
+				}
+				if cv := h.Canon.Vec[f]; cv != nil {
+					sum += cv.NumVecs
+				}
+			}
+			if !anyDrop && ov.NumVecs != sum {
+				r.fail("C15.count", "merged", "vector field %q: merged segment counts %d vectors, inputs (nothing deleted) count %d", f, ov.NumVecs, sum)
+			}
+			if anyDrop && ov.NumVecs > sum {
+				r.fail("C15.count", "merged", "vector field %q: merged segment counts %d vectors, more than its inputs (%d)", f, ov.NumVecs, sum)
+			}
 			for q := range ev.Results {
 				if s := diffVecHits(ev.Results[q], ov.Results[q]); s != "" {
 					r.fail("C15.search", "merged", "vector field %q probe %d: expected(from inputs) vs merged: %s", f, q, s)
